@@ -42,10 +42,12 @@ fn oracles() -> Vec<(&'static str, Enumerate, Check)> {
         ("c22_make_query", o_globals::enum_make_query, o_globals::check_make_query),
         ("c10_counter", o_globals::enum_counter, o_globals::check_counter),
         ("c10_rename", o_rename::enum_rename, o_rename::check_rename),
+        ("c10_clause", o_rename::enum_clause, o_rename::check_clause),
         ("c21_load", o_reader::enum_load, o_reader::check_load),
         ("c18_parsers", o_parsers::enum_strings, o_parsers::check_string),
         ("c12_arith", o_arith::enum_arith, o_arith::check_arith),
         ("c06_mgu", o_mgu::enum_mgu, o_mgu::check_mgu),
+        ("c09_mgu", o_mgu::enum_mgu_anon, o_mgu::check_mgu),
         ("c06_keeps", o_unify::enum_keeps, o_unify::check_keeps),
     ]
 }
